@@ -485,7 +485,7 @@ Lemma exec_op_sound h p o hv' :
 Proof.
   intros (HQ & Hg & Hs & Hd) Hwf Hex.
   destruct h as [[s ts] slot hpf]. simpl in HQ. destruct HQ as (tr & gb & ss & ->). simpl in Hd.
-  destruct o as [v|v|g|rid hp|rid hp| |a b c d e]; simpl in Hwf; try contradiction.
+  destruct o as [v|v|g|rid hp|rid hp| |g|a b c d e]; simpl in Hwf; try contradiction.
   - (* reload *)
     cbn [exec_op add_thread h_st h_slot h_hp threads sh] in Hex. rewrite reload_run_ok in Hex. inversion Hex; subst hv'; clear Hex. simpl.
     eexists. split; [rewrite Z.eqb_refl; reflexivity|]. unfold R; simpl. repeat split; auto.
@@ -608,6 +608,12 @@ Proof.
     { pose proof (view_check (p_cur p) (Some (p_gen p)) 0 (p_gen p) 0 (or_introl eq_refl) eq_refl (fun _ => Hg)) as V.
       change (target_pc 0) with 6%nat in V. simpl in V. unfold creq in *. simpl in *. rewrite V. reflexivity. }
     unfold R; simpl. repeat split; auto.
+    + exists tr, gb, ss. reflexivity.
+    + apply (slots_append (Q (p_cur p) (p_gen p) tr gb ss) ts slot hpf _ _ p _); auto.
+  - (* failing gslb reload: a finished thread is appended, nothing else changes *)
+    cbn [exec_op add_thread h_st h_slot h_hp threads sh] in Hex.
+    inversion Hex; subst hv'; clear Hex. cbn [fst snd prop_op].
+    eexists. split; [reflexivity|]. unfold R; simpl. repeat split; auto.
     + exists tr, gb, ss. reflexivity.
     + apply (slots_append (Q (p_cur p) (p_gen p) tr gb ss) ts slot hpf _ _ p _); auto.
 Qed.
